@@ -455,7 +455,41 @@ def rule_replacements(run):
     c02.rule_rows(run)            # one_hot / shifts are emitted through the operator replacements
 
 
-RULES = [rule_fold, rule_layout, rule_first, rule_width, rule_mask, rule_crc, rule_choose_first, rule_views, rule_tracer, rule_replacements]
+def rule_select_python(run):
+    run.begin(
+        "C18.select",
+        "select_with / std.select evaluated on constants (outside a traced context) returns the value stored under the "
+        "selector whatever that value is - an all-zero vector, Bit(0) or False included - and the default only when the "
+        "selector is not a key (abstract evaluation of cohdl._core._intrinsic.select_with)",
+        floor=8,
+    )
+    from ..absint import Interp, Reject
+
+    class _Val:
+        def __init__(self, name, truthy):
+            self.name, self.truthy = name, truthy
+
+        def __bool__(self):
+            return self.truthy
+
+        def __repr__(self):
+            return self.name
+
+    m = run.idx.mod("cohdl/_core/_intrinsic.py")
+    f = m.func("select_with")
+    zero, one, dflt = _Val("zero-value", False), _Val("nonzero-value", True), _Val("default", True)
+    cases = [("k0", {"k0": zero, "k1": one}, dflt, zero), ("k1", {"k0": zero, "k1": one}, dflt, one), ("k2", {"k0": zero, "k1": one}, dflt, dflt), ("k0", {"k0": zero}, None, zero),
+             ("k2", {"k0": zero}, None, None), ("k0", {"k0": False}, True, False), ("k0", {"k0": 0}, 7, 0), ("k1", {"k0": 0}, 7, 7), ("k0", {}, dflt, dflt)]
+    for arg, branches, default, exp in cases:
+        try:
+            got = Interp(m, {"isinstance": lambda v, t: isinstance(v, t) if isinstance(t, (type, tuple)) else False}).call_function("select_with", arg, dict(branches), default)
+        except Reject as e:
+            got = f"rejected: {e}"
+        run.ob(got is exp, "select_with", file=m.rel, line=f.node.lineno, detail=f"{arg} in {branches!r}, default={default!r}"[:70], expected=repr(exp), found=repr(got), sample=(arg == "k0" and exp is zero and default is dflt))
+    run.end()
+
+
+RULES = [rule_fold, rule_layout, rule_first, rule_width, rule_mask, rule_crc, rule_choose_first, rule_views, rule_tracer, rule_replacements, rule_select_python]
 LEVEL = "other"
 EXPLANATION = (
     "The std helpers are interpreted abstractly (sa/absint.py walks their ASTs; cohdl is never imported) over symbolic "
